@@ -70,6 +70,16 @@ fn check_seq<H: AsRef<[usize]> + SelectUnchecked>(cx: &mut Ctx, ef: &EliasFano<H
             cx.check(got[..] == v[k..(k + take + 1).min(n)], "into_iter_from", || format!("into_iter_from({k}) differs with n={n}"))?;
         }
     }
+    // the rest of the Iterator protocol (nth, skip, step_by, count, last, ...) against the input's iterator
+    if n <= 20_000 {
+        let it = cx.must("iter", || ef.iter())?;
+        iter_protocol(cx, "iter", it, v, d.seed ^ n as u64)?;
+        let k = (d.seed >> 17) as usize % (n + 1);
+        let it = cx.must("iter_from", || ef.iter_from(k))?;
+        iter_protocol(cx, "iter_from", it, &v[k..], d.seed.rotate_left(21) ^ k as u64)?;
+        let it = cx.must("into_iter_from", || ef.into_iter_from(k))?;
+        iter_protocol(cx, "into_iter_from", it, &v[k..], d.seed.rotate_left(43) ^ k as u64)?;
+    }
     // start positions beyond n must be rejected
     cx.must_panic("iter_from(n+1)", || ef.iter_from(n + 1))?;
     cx.must_panic("get(n)", || ef.get(n))?;
@@ -81,16 +91,23 @@ impl Property for C03 {
         "C03"
     }
     fn plan(&self, tier: Tier) -> Vec<Segment> {
-        vec![Segment::random("short", tier.pick(360_000, 6_400_000), &[0], 8, 400), Segment::random("long", tier.pick(36_000, 800_000), &[1], 8, 2000)]
+        vec![Segment::random("short", tier.pick(360_000, 6_400_000), &[0], 8, 400), Segment::random("long", tier.pick(36_000, 800_000), &[1], 8, 2000), Segment::enumerated("skewed-long", tier.pick(36, 216), &[2])]
     }
     fn rule(&self) -> &'static str {
-        "case = (n, gap list with duplicate runs / powers of two / huge gaps, first element, u in {last, last+1, last*2^j-1, >= last, usize::MAX-k, n*2^k+-1}, builder in {push, extend, From<slice>, concurrent set in random order}, one of 9 selection back-ends) decoded from bytes; oracle = the input vector; observed len, get, iter, into_iter, iter_from/into_iter_from at every start (sampled above 128) with ExactSizeIterator::len/size_hint; illegal pushes (out of order, above u, n+1-th, non-monotone slice) must panic and leave the builder usable. Non-trivial: n>=2 with at least one non-zero gap, or labels n=0&u>0, n=1, last=u, dup_run>=64, u>=2^63, u/n~2^k; distinct = distinct hash of the decoded case."
+        "case = (n, gap list with duplicate runs / powers of two / huge gaps, first element, u in {last, last+1, last*2^j-1, >= last, usize::MAX-k, n*2^k+-1}, builder in {push, extend, From<slice>, concurrent set in random order}, one of 9 selection back-ends) decoded from bytes, plus an enumerated segment of long skewed sequences (4096a dense values and a sparse tail whose inventory entry in the upper-bits selector spans 2^k-1, 2^k, 2^k+1 bits, k=16..21; 70000..1.7 million values); oracle = the input vector; observed len, get, iter, into_iter, iter_from/into_iter_from at every start (sampled above 128) with ExactSizeIterator::len/size_hint; illegal pushes (out of order, above u, n+1-th, non-monotone slice) must panic and leave the builder usable. Every iterator is also driven through a generated script of next/nth/size_hint steps and one consuming adaptor (count, last, collect, step_by, skip, fold) in lock-step with the model's iterator. Non-trivial: n>=2 with at least one non-zero gap, or labels n=0&u>0, n=1, last=u, dup_run>=64, u>=2^63, u/n~2^k; distinct = distinct hash of the decoded case."
     }
     fn run(&self, data: &[u8], cx: &mut Ctx) -> R {
         let (mode, rest) = data.split_first().unwrap_or((&0, &[]));
         let cap = if *mode == 1 { cx.tier.pick(6000, 100_000) } else { 200 };
         let mut u = Unstructured::new(rest);
-        let d = decode_seq(&mut u, cap);
+        let d = if *mode == 2 {
+            let mut b = [0u8; 8];
+            b[..rest.len().min(8)].copy_from_slice(&rest[..rest.len().min(8)]);
+            cx.label("skewed_long");
+            skewed_seq(u64::from_le_bytes(b))
+        } else {
+            decode_seq(&mut u, cap)
+        };
         cx.hash(&d);
         cx.describe(|| {
             let v = &d.values;
